@@ -25,26 +25,28 @@ EXTENDS OrderOps, Json, IOUtils
 
 CONSTANTS N,        \* a collection holds at most N elements
           Plain,    \* elements 1..Plain
+          Near,     \* NearBase+1 .. NearBase+Near (near-duplicate strings: consecutive pairs fold alike)
           Alike,    \* and AlikeBase+1 .. AlikeBase+Alike
-          Site      \* site -> "sorted" | "raw", "relation" -> "total" | "render"
+          Site      \* site -> "sorted" | "raw", "relation" -> "total" | "render", "strings" -> "exact" | "folded"
 
-Elems == (1..Plain) \cup ((AlikeBase + 1)..(AlikeBase + Alike))
+Elems == (1..Plain) \cup ((NearBase + 1)..(NearBase + Near)) \cup ((AlikeBase + 1)..(AlikeBase + Alike))
 
 SiteSpec     == AllSorted
 SiteByRender == ByRender
+SiteByFold   == ByFold
 SiteAllRaw   == AllRaw
 SiteObserved == LET t == JsonDeserialize(IOEnv.SITE_FILE) IN [s \in TabKeys |-> t[s]]
 
-VARIABLES prog,     \* index into Programs
+VARIABLES prog,     \* index into Programs (0 while the collection is under construction)
           pc,       \* 0 = the collection is under construction, k = stage k is next
           cur,      \* the value flowing through the program
           base      \* the collection the program started from
 vars == <<prog, pc, cur, base>>
 
-Stages == Programs[prog].stages
-Done   == pc = Len(Stages) + 1
+Stages == IF prog = 0 THEN << >> ELSE Programs[prog].stages
+Done   == prog # 0 /\ pc = Len(Stages) + 1
 
-Init == /\ prog \in 1..Len(Programs)
+Init == /\ prog = 0
         /\ pc = 0
         /\ cur = Coll({}, << >>)
         /\ base = Coll({}, << >>)
@@ -57,9 +59,10 @@ Reorder == /\ pc = 0
            /\ \E p \in Perms(cur.elems) : p # cur.ord /\ cur' = Coll(cur.elems, p)
            /\ UNCHANGED <<prog, pc, base>>
 
-Start == /\ pc = 0 /\ cur.elems # {}
+Start == /\ pc = 0 /\ cur.elems # {}          \* the program is chosen when the collection is complete
+         /\ prog' \in 1..Len(Programs)
          /\ pc' = 1 /\ base' = cur
-         /\ UNCHANGED <<prog, cur>>
+         /\ UNCHANGED cur
 
 EnumStep == /\ pc \in 1..Len(Stages) /\ Stages[pc].k = "enum"
             /\ cur' = Apply(Stages[pc], cur, Site, << >>)
@@ -84,14 +87,17 @@ Spec == Init /\ [][Next]_vars
 -----------------------------------------------------------------------------
 IsPerm(q, S) == Len(q) = Cardinality(S) /\ ToSet(q) = S
 
-TypeOK == /\ prog \in 1..Len(Programs)
+TypeOK == /\ prog \in 0..Len(Programs) /\ (prog = 0 <=> pc = 0)
           /\ pc \in 0..(Len(Stages) + 1)
           /\ cur.t \in {"coll", "seq"}
           /\ cur.t = "coll" => /\ IsPerm(cur.ord, cur.elems) /\ Cardinality(cur.elems) <= N
                                 /\ (pc = 0 => cur.elems \subseteq Elems)
           /\ IsPerm(base.ord, base.elems) /\ base.elems \subseteq Elems
-          /\ \A i \in 1..Len(Programs) : SitesOfProg(i) \subseteq Sites
-          /\ \A e \in Elems : IsAlike(e) <=> e > Plain
+
+(* constant-level facts, checked once (ASSUME) rather than in every state *)
+TablesOK == /\ \A i \in 1..Len(Programs) : SitesOfProg(i) \subseteq Sites
+            /\ \A e \in Elems : /\ IsAlike(e) <=> e > AlikeBase
+                                /\ IsNear(e) <=> (e > Plain /\ e <= AlikeBase)
 
 (* the two relations: Lt is a strict total order on the elements, LtKey is the
    same order with exactly the alike elements tied *)
@@ -100,6 +106,8 @@ RelationsOK ==
      /\ (x # y => (Lt(x, y) \/ Lt(y, x))) /\ ~(Lt(x, y) /\ Lt(y, x))
      /\ LtKey(x, y) => Lt(x, y)
      /\ (x # y /\ ~LtKey(x, y) /\ ~LtKey(y, x)) <=> (x # y /\ IsAlike(x) /\ IsAlike(y))
+     /\ LtFold(x, y) => Lt(x, y)
+     /\ (x # y /\ ~LtFold(x, y) /\ ~LtFold(y, x)) => (IsNear(x) /\ IsNear(y))
 
 (* a stable sort by the renderings is a permutation, is sorted by key, and is
    the total sort when no two members tie *)
@@ -111,6 +119,10 @@ StableSortOK ==
     /\ \A i, j \in 1..Len(q) : (i < j /\ Key(q[i]) = Key(q[j])) =>
           \E a, b \in 1..Len(cur.ord) : a < b /\ cur.ord[a] = q[i] /\ cur.ord[b] = q[j]
     /\ Cardinality({e \in cur.elems : IsAlike(e)}) <= 1 => q = EnumSorted(cur)
+    /\ LET f == StableByFold(cur.ord) IN
+       /\ IsPerm(f, cur.elems)
+       /\ \A i, j \in 1..Len(f) : i < j => ~LtFold(f[j], f[i])
+       /\ (\A x, y \in cur.elems : x # y => FoldKey(x) # FoldKey(y)) => f = EnumSorted(cur)
 
 (* the sorted enumeration is an enumeration: a permutation of the content *)
 SortedIsEnumeration ==
@@ -127,11 +139,15 @@ ReportVary ==
                                   obs |-> cur.seq, sorted |-> RefEval(Stages, base.elems)]))
 
 (* the program only moves forward, the content of the base never changes *)
-Forward == [][pc' >= pc /\ (pc > 0 => base' = base)]_vars
+Forward == [][pc' >= pc /\ (pc > 0 => (base' = base /\ prog' = prog))]_vars
+
+ASSUME TablesOK
+ASSUME RelationsOK
 
 (* the table is well formed (evaluated once) *)
 ASSUME LET t == Site IN /\ DOMAIN t = TabKeys
                         /\ t["relation"] \in {"total", "render"}
+                        /\ t["strings"] \in {"exact", "folded"}
                         /\ \A s \in Sites : t[s] \in {"sorted", "raw"}
 
 (* the program table, for the harness (evaluated once) *)
